@@ -5,6 +5,7 @@
 
 mod cal;
 mod common;
+mod exec;
 #[cfg(feature = "alloc")]
 mod hostile;
 #[cfg(feature = "alloc")]
@@ -16,6 +17,14 @@ use std::io::{BufWriter, Write};
 
 fn main() {
     let args: Vec<String> = std::env::args().collect();
+    if args.len() >= 2 && args[1] == "exec" {
+        std::panic::set_hook(Box::new(|_| {}));
+        let stdout = std::io::stdout();
+        let mut out = BufWriter::with_capacity(1 << 20, stdout.lock());
+        exec::exec(&mut out);
+        out.flush().unwrap();
+        return;
+    }
     if args.len() < 4 {
         eprintln!("usage: harness <group> <quick|thorough> <seed> [data-root]");
         std::process::exit(2);
@@ -23,6 +32,7 @@ fn main() {
     let group = args[1].as_str();
     let thorough = args[2] == "thorough";
     let seed: u64 = args[3].parse().unwrap_or(0);
+    #[allow(unused_variables)]
     let root = args.get(4).cloned().unwrap_or_else(|| "/verif/data/zoneinfo".to_string());
     // panics are answers (`PANIC`), not noise on stderr
     std::panic::set_hook(Box::new(|_| {}));
@@ -84,6 +94,47 @@ fn main() {
         }
     }
     out.flush().unwrap();
+}
+
+/// rustc is the authority for Send + Sync: a public type that loses either fails this build (C15)
+#[allow(dead_code)]
+fn assert_send_sync<T: Send + Sync>() {}
+
+#[allow(dead_code)]
+fn static_asserts() {
+    use tz::datetime::*;
+    use tz::error::datetime::*;
+    use tz::error::timezone::*;
+    use tz::timezone::*;
+    assert_send_sync::<UtcDateTime>();
+    assert_send_sync::<DateTime>();
+    assert_send_sync::<FoundDateTimeKind>();
+    assert_send_sync::<FoundDateTimeListRefMut<'static>>();
+    assert_send_sync::<Transition>();
+    assert_send_sync::<LeapSecond>();
+    assert_send_sync::<LocalTimeType>();
+    assert_send_sync::<TimeZoneRef<'static>>();
+    assert_send_sync::<TransitionRule>();
+    assert_send_sync::<AlternateTime>();
+    assert_send_sync::<RuleDay>();
+    assert_send_sync::<Julian1WithoutLeap>();
+    assert_send_sync::<Julian0WithLeap>();
+    assert_send_sync::<MonthWeekDay>();
+    assert_send_sync::<tz::TzError>();
+    assert_send_sync::<tz::Error>();
+    assert_send_sync::<DateTimeError>();
+    assert_send_sync::<LocalTimeTypeError>();
+    assert_send_sync::<TransitionRuleError>();
+    assert_send_sync::<TimeZoneError>();
+    #[cfg(feature = "alloc")]
+    {
+        assert_send_sync::<FoundDateTimeList>();
+        assert_send_sync::<tz::TimeZone>();
+        assert_send_sync::<tz::TimeZoneSettings<'static>>();
+        assert_send_sync::<tz::error::parse::TzFileError>();
+        assert_send_sync::<tz::error::parse::TzStringError>();
+        assert_send_sync::<tz::error::parse::ParseDataError>();
+    }
 }
 
 fn features() -> &'static str {
